@@ -99,18 +99,21 @@ type Found struct {
 
 // Report is the merged result of an exploration.
 type Report struct {
-	Executions   int64
-	ChoicePoints int64
-	Steps        int64
-	MaxDepth     int
-	Nodes        int64 // distinct decision-tree nodes visited (= executions + inner points)
-	Outcomes     map[string]int64
-	Violations   []Found // at most one per signature, fewest deviations first seen
-	Exhaustive   bool
-	Capped       string
-	Samples      [][]string
-	Errors       []string
-	Wall         time.Duration
+	Executions      int64
+	ChoicePoints    int64
+	Steps           int64
+	MaxDepth        int
+	Nodes           int64 // distinct decision-tree nodes visited (= executions + inner points)
+	Outcomes        map[string]int64
+	Violations      []Found // at most one per signature, fewest deviations first seen
+	Exhaustive      bool
+	Capped          string
+	Samples         [][]string
+	Errors          []string
+	Diverged        int64 // executions that did not follow their forced prefix (subtree skipped)
+	FirstDivergence string
+	Unconfirmed     int64 // violations that did not reproduce when their tape was replayed
+	Wall            time.Duration
 }
 
 func (r *Report) merge(o *Report) {
@@ -128,6 +131,10 @@ func (r *Report) merge(o *Report) {
 		r.addViolation(f)
 	}
 	r.Errors = append(r.Errors, o.Errors...)
+	r.Diverged += o.Diverged
+	if r.FirstDivergence == "" {
+		r.FirstDivergence = o.FirstDivergence
+	}
 	for _, s := range o.Samples {
 		if len(r.Samples) < 3 {
 			r.Samples = append(r.Samples, s)
@@ -156,7 +163,12 @@ func RunOne(prefix []int, bound int, body func(*Tape) Outcome, rep *Report) (chi
 	t := NewTape(prefix)
 	out := body(t)
 	if t.Err != nil {
-		rep.Errors = append(rep.Errors, t.Err.Error())
+		// the execution did not follow its prefix (nondeterminism the harness does not own, e.g. completion
+		// order of file I/O in goroutines of the code under test): the subtree is skipped and counted
+		rep.Diverged++
+		if rep.FirstDivergence == "" {
+			rep.FirstDivergence = t.Err.Error()
+		}
 		return nil
 	}
 	rep.Executions++
